@@ -3,6 +3,7 @@ from pv import judges, lifecycle, plans, programs
 
 ID = 'C05'
 TITLE = 'pause/play transparency'
+ANCHORS = ['plumpy.processes:Process.pause', 'plumpy.processes:Process._do_pause', 'plumpy.processes:Process.play', 'plumpy.processes:Process.on_playing', 'plumpy.processes:Process.step', 'plumpy.process_states:Waiting.execute']
 LEVEL = 'exploration'
 TECHNIQUE = ('runtime monitoring: paused-flag assertion at every step entry + differential of the executed-step trace against a reference '
              'interpreter of the program text, under enumerated pause/play/resume placements')
